@@ -5,6 +5,10 @@
 (* symbol-replaced key, returned stem) is replayed against the selector    *)
 (* model; the run is accepted iff every returned stem is the one the model *)
 (* hands out and Injective holds after every call.  One TLC step per run.  *)
+(* For a REPEATED call (an entity already named) only the returned name is *)
+(* compared with the first answer (Stable); its number and stem fields are *)
+(* not looked at again - the binding self-test of checks/c10.py therefore  *)
+(* corrupts `n` of a first call and `ret` of a repeated one.               *)
 (***************************************************************************)
 EXTENDS Naturals, Sequences, FiniteSets, TLC, SequencesExt, Json, IOUtils
 
